@@ -80,7 +80,34 @@ DimFails(r) == { p[1] \o "=shape(" \o p[2] \o ")" : p \in { q \in DimPairs :
 Unstable(r) == IF ~Has(r, "final") THEN {}
                ELSE { "Stable(" \o n \o ")" : n \in { k \in DOMAIN r.first : k \in DOMAIN r.final /\ r.final[k] # r.first[k] } }
 
-Failed(r) == LET c == Clauses(r) IN { k \in DOMAIN c : ~c[k] } \cup DimFails(r) \cup Unstable(r)
+\* diagnoses (never verdicts): abstract signatures of known ways to fail, decided here so that a known
+\* finding is matched by what the failure IS, not merely by which clause it trips
+FaceEdgeBeforeCorner(m, E, FE) ==      \* entry j is the edge joining corner j - 1 and corner j (the MPAS slot order)
+    /\ Len(FE) = Len(m)
+    /\ \A f \in 1..Len(m) : Len(FE[f]) >= Len(m[f]) /\ \A j \in 1..Len(m[f]) :
+          /\ FE[f][j] \in 0..(Len(E) - 1)
+          /\ RowAsSide(E[FE[f][j] + 1]) = SideAt(m[f], PrevIdx(m[f], j))
+Gaps(T) == \E k \in 1..Len(T) : ~PadOnlyAtEnd(T[k])
+\* each diagnosis belongs to one clause (the harness attaches it to that clause's signature):
+\*   FaceEdgeBeforeCorner -> FaceEdgeJoins     the table is right but for the slot convention
+\*   FaceFaceGaps         -> FaceFacePadding   every neighbour is right, absent ones are left in place
+\*   NodeFaceGaps         -> NodeFacePadding   every member is right, absent ones are left in place
+\*   EdgeFaceGaps         -> EdgeFacePadding   every member is right, a boundary row reads (padding, face)
+\*   HolesFromSecondSlot  -> HoleEdges         the list is exactly the rows whose SECOND slot is padding
+Diag(r) == LET f == r.first  m == MeshR(r)  H(n) == n \in DOMAIN f IN
+    (IF H("fe") /\ H("en") /\ EdgeRowsWellShaped(f.en) /\ FaceEdgeBeforeCorner(m, f.en, f.fe)
+        THEN { "diag:FaceEdgeBeforeCorner" } ELSE {})
+    \cup (IF H("ff") /\ FaceFaceCounts(m, f.ff) /\ Gaps(f.ff) THEN { "diag:FaceFaceGaps" } ELSE {})
+    \cup (IF H("nf") /\ NodeFaceMembers(m, NNodeR(r), f.nf) /\ Gaps(f.nf) THEN { "diag:NodeFaceGaps" } ELSE {})
+    \cup (IF H("ef") /\ H("en") /\ EdgeFaceShape(f.en, f.ef) /\ EdgeFaceMembers(m, f.en, f.ef) /\ Gaps(f.ef)
+        THEN { "diag:EdgeFaceGaps" } ELSE {})
+    \cup (IF H("holes") /\ H("ef") /\ Gaps(f.ef) /\ (\A k \in 1..Len(f.ef) : Len(f.ef[k]) = 2)
+             /\ Range(f.holes) = { k - 1 : k \in { l \in 1..Len(f.ef) : f.ef[l][2] = PAD } }
+        THEN { "diag:HolesFromSecondSlot" } ELSE {})
+
+Failed(r) == LET c == Clauses(r)
+                 bad == { k \in DOMAIN c : ~c[k] } \cup DimFails(r) \cup Unstable(r)
+             IN IF bad = {} THEN {} ELSE bad \cup Diag(r)
 
 Init == i \in { -b : b \in 1..NBlocks }
 Next == /\ i < 0
